@@ -280,6 +280,7 @@ impl<'tcx> D<'tcx> {
                         match c.const_ {
                             Const::Unevaluated(u, _) => {
                                 o.push(("uneval", J::S(self.path(u.def))));
+                                o.push(("uneval_args", self.generic_args(u.args, env)));
                                 if u.promoted.is_some() {
                                     o.push(("promoted", J::B(true)));
                                 }
@@ -714,6 +715,41 @@ impl<'tcx> D<'tcx> {
                             if let Some(si) = v.try_to_scalar_int() {
                                 o.push(("int", J::S(si.to_bits_unchecked().to_string())));
                                 o.push(("size", J::I(si.size().bytes() as i128)));
+                            } else if let mir::ConstValue::Indirect { alloc_id, offset } = v {
+                                // a small array of integers / bools (a lookup table): its elements
+                                let t = tcx.type_of(did).instantiate_identity().skip_norm_wip();
+                                if let ty::Array(elem, len) = t.kind() {
+                                    let esz: Option<usize> = match elem.kind() {
+                                        ty::Bool => Some(1),
+                                        ty::Int(it) => it.bit_width().map(|w| (w / 8) as usize).or(Some(8)),
+                                        ty::Uint(ut) => ut.bit_width().map(|w| (w / 8) as usize).or(Some(8)),
+                                        _ => None,
+                                    };
+                                    if let (Some(esz), Some(n)) = (esz, len.try_to_target_usize(tcx)) {
+                                        let n = n as usize;
+                                        if n <= 64 {
+                                            if let Some(ga) = tcx.try_get_global_alloc(alloc_id) {
+                                                if let mir::interpret::GlobalAlloc::Memory(m) = ga {
+                                                    let a = m.inner();
+                                                    let start = offset.bytes() as usize;
+                                                    if a.provenance().ptrs().is_empty() && start + n * esz <= a.len() {
+                                                        let bytes = a.inspect_with_uninit_and_ptr_outside_interpreter(start..start + n * esz);
+                                                        let mut elems = vec![];
+                                                        for i in 0..n {
+                                                            let mut v: u128 = 0;
+                                                            for k in 0..esz {
+                                                                v |= (bytes[i * esz + k] as u128) << (8 * k);
+                                                            }
+                                                            elems.push(J::S(v.to_string()));
+                                                        }
+                                                        o.push(("ints", J::A(elems)));
+                                                        o.push(("elem_ty", s(format!("{}", elem))));
+                                                    }
+                                                }
+                                            }
+                                        }
+                                    }
+                                }
                             }
                         }
                     }
